@@ -192,6 +192,10 @@ def pcgrad(index, ctx):
     acc = [s for s in after if (isinstance(s, ast.AugAssign) and isinstance(s.op, ast.Add) and set(carried) & names_read(s.value)) or
            (isinstance(s, ast.Assign) and isinstance(s.value, ast.BinOp) and isinstance(s.value.op, ast.Add) and set(carried) & names_read(s.value)
             and base_name(s.targets[0]) in names_read(s.value))]
+    # `w = W[i]` at the top of the outer loop: w is a view of row i of W — updating w updates W
+    view_bases = {base_name(s_.value) for s_ in outer.body if isinstance(s_, ast.Assign) and len(s_.targets) == 1 and isinstance(s_.targets[0], ast.Name) and s_.targets[0].id in carried
+                  and isinstance(s_.value, ast.Subscript) and norm_text(s_.value.slice) == (ivar or "")}
+    carried = sorted(set(carried) | {b_ for b_ in view_bases if b_})
     if not acc and not after:
         # the projected vectors kept as the rows of one matrix, summed once all rows are done: `W.sum(dim=0)` after the loops
         body_ = fn.body
